@@ -12,6 +12,11 @@ class Unsupported(Exception):
     pass
 
 
+class UB(Exception):
+    """The evaluated code performs an operation with undefined behaviour on these values."""
+    pass
+
+
 class Unknown(Exception):
     """A value that the initial memory does not define was needed to decide a branch."""
     pass
@@ -86,6 +91,8 @@ class Machine:
         self.mem = {}          # canonical path tuple -> V
         self.fuel = fuel
         self.calls_ignored = set()
+        self.lenient_ub = False
+        self.ub_hits = []
         self.field_types = {}
         for r in P.records.values():
             for f in r['fields']:
@@ -200,7 +207,11 @@ class Machine:
                 a = promote(a)
                 sh = b.v
                 if sh < 0 or sh >= a.bits:
-                    raise Unsupported('shift out of range')
+                    if not self.lenient_ub:
+                        raise UB('shift of a %d-bit value by %d' % (a.bits, sh))
+                    # record the undefined behaviour and continue with what x86 does (count masked to the width)
+                    self.ub_hits.append('shift of a %d-bit value by %d' % (a.bits, sh))
+                    sh &= a.bits - 1
                 return V(a.v << sh if op == '<<' else a.v >> sh, a.bits, a.sg)
             a, b = usual(a, b)
             if op in ('<', '<=', '>', '>=', '==', '!='):
@@ -214,7 +225,7 @@ class Machine:
                 return V(a.v * b.v, a.bits, a.sg)
             if op in ('/', '%'):
                 if b.v == 0:
-                    raise Unsupported('division by zero')
+                    raise UB('division by zero')
                 q = abs(a.v) // abs(b.v)
                 if (a.v < 0) != (b.v < 0):
                     q = -q
